@@ -178,48 +178,32 @@ func (i *Injector) marshal(cfg *config.Config) ([]byte, error) {
 		return nil, errors.Wrapf(err, "marshal config failed")
 	}
 
-	// every secret is marshaled as "<secret>", put the real values of all sections
-	// that prometheus still needs back to where they belong
 	root := yaml.MapSlice{}
 	if err := yaml.Unmarshal(gen, &root); err != nil {
 		return nil, errors.Wrapf(err, "unmarshal marshaled config")
 	}
 
 	// an empty separator or replacement of a relabel rule is left out by the marshaller,
-	// prometheus would read the default (";" / "$1") back, so put them back too
+	// prometheus would read the default (";" / "$1") back, so put them back
 	for idx, job := range cfg.ScrapeConfigs {
 		node := yamlChild(yamlChild(root, "scrape_configs"), idx)
 		restoreEmptyRelabelFields(yamlChild(node, "relabel_configs"), job.RelabelConfigs)
 		restoreEmptyRelabelFields(yamlChild(node, "metric_relabel_configs"), job.MetricRelabelConfigs)
 	}
-	restoreEmptyRelabelFields(yamlChild(yamlChild(root, "alerting"), "alert_relabel_configs"), cfg.AlertingConfig.AlertRelabelConfigs)
 
-	// the discovery sections of alertmanagers may hold secrets of any discovery mechanism,
-	// take them as the user wrote them
+	// the sections prometheus needs unchanged are taken as the user wrote them: the marshaller hides
+	// every secret ("<secret>", "xxxxx" for the password of a url) and leaves out values that are
+	// empty or zero although the default is something else (filter_external_labels: false)
 	orig := yaml.MapSlice{}
-	_ = yaml.Unmarshal(i.curCfg.RawContent, &orig)
-	for idx, am := range cfg.AlertingConfig.AlertmanagerConfigs {
-		node := yamlChild(yamlChild(yamlChild(root, "alerting"), "alertmanagers"), idx)
-		restoreClientSecrets(node, am.HTTPClientConfig)
-		restoreEmptyRelabelFields(yamlChild(node, "relabel_configs"), am.RelabelConfigs)
-		restoreDiscoverySections(node, yamlChild(yamlChild(yamlChild(orig, "alerting"), "alertmanagers"), idx))
+	if err := yaml.Unmarshal(i.curCfg.RawContent, &orig); err != nil {
+		return nil, errors.Wrapf(err, "unmarshal raw config")
 	}
-	for idx, w := range cfg.RemoteWriteConfigs {
-		node := yamlChild(yamlChild(root, "remote_write"), idx)
-		restoreClientSecrets(node, w.HTTPClientConfig)
-		if w.URL != nil {
-			restoreURLPassword(node, "url", w.URL.URL)
-		}
-		restoreEmptyRelabelFields(yamlChild(node, "write_relabel_configs"), w.WriteRelabelConfigs)
-		if w.SigV4Config != nil {
-			restoreSecret(yamlChild(node, "sigv4"), "secret_key", string(w.SigV4Config.SecretKey))
-		}
-	}
-	for idx, r := range cfg.RemoteReadConfigs {
-		node := yamlChild(yamlChild(root, "remote_read"), idx)
-		restoreClientSecrets(node, r.HTTPClientConfig)
-		if r.URL != nil {
-			restoreURLPassword(node, "url", r.URL.URL)
+	for idx := range root {
+		switch root[idx].Key {
+		case "alerting", "remote_write", "remote_read":
+			if v := yamlChild(orig, root[idx].Key); v != nil {
+				root[idx].Value = v
+			}
 		}
 	}
 
@@ -261,59 +245,6 @@ func restoreEmptyRelabelFields(node interface{}, rules []*relabel.Config) {
 			m = append(m, yaml.MapItem{Key: "replacement", Value: ""})
 		}
 		list[idx] = m
-	}
-}
-
-func restoreSecret(node interface{}, key string, secret string) {
-	m, ok := node.(yaml.MapSlice)
-	if !ok || secret == "" {
-		return
-	}
-	for idx := range m {
-		if m[idx].Key == key {
-			m[idx].Value = secret
-		}
-	}
-}
-
-// restoreDiscoverySections replace every "xxx_sd_configs" section of node by the one of orig
-func restoreDiscoverySections(node interface{}, orig interface{}) {
-	m, ok := node.(yaml.MapSlice)
-	if !ok {
-		return
-	}
-	for idx := range m {
-		key, ok := m[idx].Key.(string)
-		if !ok || !strings.HasSuffix(key, "_sd_configs") {
-			continue
-		}
-		if v := yamlChild(orig, key); v != nil {
-			m[idx].Value = v
-		}
-	}
-}
-
-// restoreURLPassword put back a url whose password was marshaled as "xxxxx"
-func restoreURLPassword(node interface{}, key string, u *url.URL) {
-	if u == nil || u.User == nil {
-		return
-	}
-	if _, has := u.User.Password(); has {
-		restoreSecret(node, key, u.String())
-	}
-}
-
-func restoreClientSecrets(node interface{}, c config_util.HTTPClientConfig) {
-	restoreURLPassword(node, "proxy_url", c.ProxyURL.URL)
-	restoreSecret(node, "bearer_token", string(c.BearerToken))
-	if c.BasicAuth != nil {
-		restoreSecret(yamlChild(node, "basic_auth"), "password", string(c.BasicAuth.Password))
-	}
-	if c.Authorization != nil {
-		restoreSecret(yamlChild(node, "authorization"), "credentials", string(c.Authorization.Credentials))
-	}
-	if c.OAuth2 != nil {
-		restoreSecret(yamlChild(node, "oauth2"), "client_secret", string(c.OAuth2.ClientSecret))
 	}
 }
 
